@@ -72,6 +72,17 @@ func c15(c *q.Ctx) {
 		c.Guard(f, q.Cond{Canon: "(nil == " + node + ")", Sense: true}, q.ToFieldStore("QCPendingTree.HighQC"), q.Opt{})
 	}
 	if uh != nil {
+		// once HighQC moved, the three ancestor markers are re-derived on every path; a marker stays only when
+		// the ancestor it would name does not exist (then it is the tree's edge, not a stale value of another branch)
+		p1 := par(node)
+		p2 := par(p1)
+		p3 := par(p2)
+		high := q.ToFieldStore("QCPendingTree.HighQC")
+		c.Then(uh, high, q.ToFieldStore("QCPendingTree.GenericQC"), q.ToAnyReturn(), []q.Cond{{Canon: "(nil == " + p1 + ")", Sense: true}}, "generic follows every move of HighQC, also to a node of equal view on another branch")
+		c.Then(uh, q.ToFieldStore("QCPendingTree.GenericQC"), q.ToFieldStore("QCPendingTree.LockedQC"), q.ToAnyReturn(), []q.Cond{{Canon: "(nil == " + p2 + ")", Sense: true}}, "locked follows generic")
+		c.Then(uh, q.ToFieldStore("QCPendingTree.LockedQC"), q.ToFieldStore("QCPendingTree.CommitQC"), q.ToAnyReturn(), []q.Cond{{Canon: "(nil == " + p3 + ")", Sense: true}}, "commit follows locked")
+	}
+	if uh != nil {
 		c.Guard(uh, q.Cond{Canon: "(i:QuorumCertInterface.GetProposalView(" + node + ".In) < i:QuorumCertInterface.GetProposalView(p0.HighQC.In))", Sense: true}, q.ToFieldStore("QCPendingTree.HighQC"), q.Opt{})
 	}
 	if eh != nil {
